@@ -51,7 +51,7 @@ def run(ctx):
             plan.append((u, cases))
     for gi, (u, cases) in enumerate(plan):
         for si, shard in enumerate(split_cases(cases, 2 if len(cases) > 60 else 1)):
-            jobs.append({'u': u, 'opts': {} if gi % 5 else {'cse': False}, 'cases': shard, 'seed': ctx.seed + 17 * gi + si, 'n_irr': 6 if q else 30, 'n_sib': 3 if q else 12,
+            jobs.append({'u': u, 'opts': {} if gi % 5 else {'cse': False}, 'cases': shard, 'seed': ctx.seed + 17 * gi + si, 'n_irr': 6 if q else 30, 'n_sib': 3 if q else 12, 'n_chain': 2 if q else 6,
                          'out': os.path.join(tdir, f'g{gi}_{si}.ndjson'), 'prefix': f'g{gi}.{si}'})
     # graded mode x symbolic operands x history: u*u (coefficients that cancel by VALUE) before u*v on the same complete-grade
     # key patterns, composite operators in between
